@@ -79,28 +79,33 @@ func (obj *RuneReader) ReadRune() (r rune, size int, err error) {
 		r, size, err = rr.ReadRune()
 		obj.lastRune = r
 	} else {
+		// The bytes of a character can arrive one at a time, a read can
+		// deliver nothing without being at the end, and the last bytes can
+		// come together with io.EOF.
 		buf := make([]byte, 4)
-		var cnt int
-		if cnt, err = obj.Read(buf[:1]); cnt == 1 && err == nil {
+		have, need := 0, 1
+		for have < need && err == nil {
+			var cnt int
+			cnt, err = obj.Read(buf[have:need])
+			if have += cnt; have == 0 {
+				continue
+			}
 			switch {
 			case buf[0] < 0x80:
-				r = rune(buf[0])
-				size = 1
 			case (buf[0] & 0xf8) == 0xf0: // 11110xxx
-				// 4 byte rune
-				if cnt, err = obj.Read(buf[1:]); cnt == 3 && err == nil {
-					r, size = utf8.DecodeRune(buf)
-				}
+				need = 4
 			case (buf[0] & 0xf0) == 0xe0: // 1110xxxx
-				// 3 byte rune
-				if cnt, err = obj.Read(buf[1:3]); cnt == 2 && err == nil {
-					r, size = utf8.DecodeRune(buf)
-				}
+				need = 3
 			case (buf[0] & 0xe0) == 0xc0: // 110xxxxx
-				// 2 byte rune
-				if cnt, err = obj.Read(buf[1:2]); cnt == 1 && err == nil {
-					r, size = utf8.DecodeRune(buf)
-				}
+				need = 2
+			}
+		}
+		if have == need {
+			if r, size = utf8.DecodeRune(buf[:have]); r == utf8.RuneError && size <= 1 {
+				size = 0
+			}
+			if size != 0 {
+				err = nil
 			}
 		}
 		if size == 0 && err == nil {
